@@ -77,6 +77,10 @@ func init() {
 					l1(lp.prop, tier, "history", k, 2, 2, lp.mw, 1, 0),
 					l1(lp.prop, tier, "lifecycle-crash", 2, 2, 2, lp.mw, 1, 1),
 				}
+				if lp.prop == 4 {
+					hs = append(hs, HarnessSpec{Name: "spawn-races-with-senders", Pkg: "actor", Func: "ZZ_L2", Preempt: 2,
+						Params: pm("prop", 4, "T", 2, "M", 2, "crash", 0), Witnesses: []string{"send-before-registration", "partially-accepted"}, Deadline: 30 * time.Minute})
+				}
 				return hs
 			},
 			Bounds: func(tier string) string {
@@ -161,5 +165,62 @@ func init() {
 		},
 		Outside:     []string{"protobuf marshalling of payloads and of the Envelope itself (ProtoSerializer, MarshalVT/UnmarshalVT) and DRPC framing: serializer/deserializer are stubs and the Envelope value is handed over in memory", "a payload that is not a proto.Message (ProtoSerializer.TypeName type assertion)", "targets on several addresses (one stream writer serves one address)", "longer batches and strings"},
 		Assumptions: seqAssume("writer = real streamWriter.Invoke with a stub stream/conn; reader = real streamReader.Receive on a bare engine with recording processes; xxh3.Hash, where still used, is an uninterpreted function with injectivity instances"),
+	})
+
+	inbox := func(prop int, tier string, witnesses ...string) HarnessSpec {
+		return HarnessSpec{Name: "inbox-unit", Pkg: "actor", Func: "ZZ_Inbox", Preempt: 2,
+			Params: pm("prop", prop, "T", tierSel(tier, 2, 3), "M", 2, "S", 2), Witnesses: append([]string{"start-races-with-senders"}, witnesses...), Deadline: 40 * time.Minute}
+	}
+	l2 := func(prop int, t, m, crash int, witnesses ...string) HarnessSpec {
+		return HarnessSpec{Name: fmt.Sprintf("process-threads(prop %d)", prop), Pkg: "actor", Func: "ZZ_L2", Preempt: 2,
+			Params: pm("prop", prop, "T", t, "M", m, "crash", crash), Witnesses: witnesses, Deadline: 40 * time.Minute}
+	}
+	thrAssume := func(extra ...string) []string {
+		return append(append(extra, "schedules: every interleaving of the goroutines at synchronisation granularity (atomics, mutexes, go, Gosched, Sleep, receiver yields) with at most 2 preemptions; interleavings are enumerated by the executor's scheduler decisions, data (payloads, crash flags) is symbolic and decided by z3", "goscheduler.Schedule's `go fn()` is an executor thread"), commonAssumptions...)
+	}
+	reg(&PropSpec{
+		ID: "C01",
+		Harnesses: func(tier string) []HarnessSpec {
+			return []HarnessSpec{inbox(1, tier, "several-batches"), l2(4, tierSel(tier, 2, 2), tierSel(tier, 2, 3), 0, "partially-accepted")}
+		},
+		Bounds: func(tier string) string {
+			return fmt.Sprintf("inbox unit: %d sender goroutines x 2 messages with symbolic payloads, initial ring size 1..2 (growth and wrap occur), Start before or racing with the senders, preemption bound 2; process unit: spawner + 2 senders on a real process/Inbox of size 1", tierSel(tier, 2, 3))
+		},
+		Outside:     []string{"more goroutines / messages / preemptions", "ring-buffer arithmetic beyond these sizes (C14 covers it inductively)", "batches above messageBatchSize"},
+		Assumptions: thrAssume("inbox unit: real Inbox, RingBuffer and goscheduler with a recording Processer"),
+	})
+	reg(&PropSpec{
+		ID: "C02",
+		Harnesses: func(tier string) []HarnessSpec {
+			return []HarnessSpec{inbox(2, tier), l2(2, 2, 2, 1, "restart")}
+		},
+		Bounds: func(tier string) string {
+			return fmt.Sprintf("inbox unit: %d senders x 2 messages, Start racing, preemption bound 2, receiver yields inside every Invoke; process unit: spawner (Initialized/Started on its goroutine) + 2 senders x 2 messages, one symbolic crash (restart on the worker goroutine), receiver yields twice inside every Receive; overlap = a second Receive/Invoke entered while one is active", tierSel(tier, 2, 3))
+		},
+		Outside:     []string{"happens-before between consecutive Receives beyond non-overlap (the executor's race detector is not enabled for this check)", "Stop/Poison callers", "more goroutines / preemptions"},
+		Assumptions: thrAssume("units as for C01"),
+	})
+	reg(&PropSpec{
+		ID:        "C03",
+		Harnesses: func(tier string) []HarnessSpec { return []HarnessSpec{inbox(3, tier)} },
+		Bounds: func(tier string) string {
+			return fmt.Sprintf("%d sender goroutines x 2 messages, initial ring size 1..2, Start before or racing with the senders, preemption bound 2; at quiescence (every goroutine finished) all messages were handled, the ring is empty and the status is idle", tierSel(tier, 2, 3))
+		},
+		Outside:     []string{"more goroutines / messages / preemptions", "Stop racing with Send"},
+		Assumptions: thrAssume("inbox unit as for C01"),
+	})
+	reg(&PropSpec{
+		ID: "C10",
+		Harnesses: func(tier string) []HarnessSpec {
+			return []HarnessSpec{
+				{Name: "spawn-stop-respawn", Pkg: "actor", Func: "ZZ_C10_Seq", Params: pm("K", tierSel(tier, 5, 6)), Witnesses: []string{"duplicate-spawn", "respawn-after-stop"}},
+				l2(10, tierSel(tier, 1, 2), 2, 0),
+			}
+		},
+		Bounds: func(tier string) string {
+			return fmt.Sprintf("sequential histories of %d operations spawn/send/stop/deliver on one id (operation symbolic); threaded: two concurrent SpawnProc of one id + %d sender(s) x 2 messages, preemption bound 2", tierSel(tier, 5, 6), tierSel(tier, 1, 2))
+		},
+		Outside:     []string{"SpawnChild (same Registry.add path)", "Stop concurrent with Spawn", "several ids (the registry map is keyed by id; ids do not interact)"},
+		Assumptions: thrAssume("L1 (fake inbox) for the sequential histories, L2 (real Inbox) for the concurrent spawns"),
 	})
 }
